@@ -65,7 +65,7 @@ theorem gen_index_to_alpha_step (v : Nat) :
 /-- the digit of `index_to_alpha`: `BASE_CHAR_CODE + (v % 26)` is the code of the model's `letter v` -/
 theorem gen_index_to_alpha_digit (v : Nat) : Char.ofNat (index_to_alpha_digit v) = letter v := by
   unfold index_to_alpha_digit letter
-  simp [show Char.toNat 'A' = 65 from by decide]
+  simp only [show Char.toNat 'A' = 65 from by decide] <;> (try congr 1) <;> (try omega)
 
 /-- one unfolding of the model's `alphaRev` in terms of the compiled step and digit -/
 theorem gen_alphaRev_step (v : Nat) :
@@ -180,7 +180,7 @@ theorem gen_index_to_alpha_closure_0 (v : Nat) : index_to_alpha_closure_0 v = st
 
 theorem gen_index_to_alpha_closure_1 (v : Nat) : index_to_alpha_closure_1 v = digitSpec v := by
   unfold index_to_alpha_closure_1 digitSpec
-  simp [show Char.toNat 'A' = 65 from by decide]
+  simp only [show Char.toNat 'A' = 65 from by decide] <;> (try omega)
 
 theorem gen_index_to_alpha_closure_2 (n : Nat) : index_to_alpha_closure_2 n = rt_char_from_u32 n := by
   unfold index_to_alpha_closure_2
